@@ -75,7 +75,7 @@ func (pi *PackageInstaller) Run(ctx context.Context, kube client.Client) error {
 			// and its packagePullPolicy is set to Never.
 			continue
 		}
-		pMap[xpkg.ParsePackageSourceFromReference(ref)] = p.GetName()
+		pMap[ref.Context().Name()] = p.GetName()
 	}
 	cl := &v1.ConfigurationList{}
 	if err := kube.List(ctx, cl); err != nil && !kerrors.IsNotFound(err) {
@@ -87,7 +87,7 @@ func (pi *PackageInstaller) Run(ctx context.Context, kube client.Client) error {
 		if err != nil {
 			continue
 		}
-		cMap[xpkg.ParsePackageSourceFromReference(ref)] = c.GetName()
+		cMap[ref.Context().Name()] = c.GetName()
 	}
 	fl := &v1.FunctionList{}
 	if err := kube.List(ctx, fl); err != nil && !kerrors.IsNotFound(err) {
@@ -99,7 +99,7 @@ func (pi *PackageInstaller) Run(ctx context.Context, kube client.Client) error {
 		if err != nil {
 			continue
 		}
-		fMap[xpkg.ParsePackageSourceFromReference(ref)] = f.GetName()
+		fMap[ref.Context().Name()] = f.GetName()
 	}
 	// NOTE(hasheddan): we maintain a separate index from the range so that
 	// Providers, Configurations and Functions can be added to the same slice for applying.
@@ -143,7 +143,7 @@ func buildPack(pack v1.Package, img string, pkgMap map[string]string) error {
 		return errors.Wrap(err, errParsePackageName)
 	}
 	objName := xpkg.ToDNSLabel(ref.Context().RepositoryStr())
-	if existing, ok := pkgMap[ref.Context().RepositoryStr()]; ok {
+	if existing, ok := pkgMap[ref.Context().Name()]; ok {
 		objName = existing
 	}
 	pack.SetName(objName)
